@@ -721,12 +721,16 @@ class DistributedShampoo(torch.optim.Optimizer):
             state_lists[GRAFTING_PRECONDITIONER_LIST].compress_preconditioner_list(
                 local_grad_selector=state_lists[DISTRIBUTOR].local_grad_selector,
             )
-        if group[BETAS][0] != 0.0:
+        # NOTE: The masked lists have to follow the selector whenever the optimizer states exist (i.e., the
+        # hyperparameter was nonzero at construction), not only while the current value in the parameter
+        # group is nonzero; otherwise, a schedule that sets momentum (or beta1) to zero for a while leaves a
+        # stale masked list behind that is used again once the value is restored.
+        if FILTERED_GRAD_LIST in state_lists:
             state_lists[MASKED_FILTERED_GRAD_LIST] = compress_list(
                 state_lists[FILTERED_GRAD_LIST],
                 state_lists[DISTRIBUTOR].local_grad_selector,
             )
-        if group[MOMENTUM] != 0.0:
+        if MOMENTUM_LIST in state_lists:
             state_lists[MASKED_MOMENTUM_LIST] = compress_list(
                 state_lists[MOMENTUM_LIST],
                 state_lists[DISTRIBUTOR].local_grad_selector,
